@@ -136,6 +136,25 @@ def install(sim_time=True, gran="opcode"):
         _patch(ipo, "dt", prims.DT)
 
 
+class _OsWithCpuCount:
+    def __init__(self, real, n):
+        self._real, self._n = real, n
+
+    def cpu_count(self):
+        return self._n
+
+    def __getattr__(self, name):
+        return getattr(self._real, name)
+
+
+def patch_cpu_count(n):
+    """os.cpu_count() as seen by the engine (the default worker count derives from it)."""
+    import uberjob._execution.run_function_on_graph as rfg
+
+    if hasattr(rfg, "os"):
+        _patch(rfg, "os", _OsWithCpuCount(rfg.os, n))
+
+
 def _patch_discovered_seams():
     """Any other uberjob module that (in the tree under test) refers to the `threading` module, imports names from
     it, or holds lock objects created at import time (module globals, class attributes) gets the simulated
